@@ -146,6 +146,17 @@ def _cases(draw, tier):
                 pre_ops = None
                 break
             pre_ops.append(o)
+    # the earlier statement may also be this very statement with an enumeration key written in another letter case: that
+    # is a label of its own (keys are case sensitive) and says nothing about the key
+    twin_i = [i for i, o in enumerate(ops) if o['k'] == 'enum' and o['key'].isidentifier() and o['key'].swapcase() != o['key']]
+    if twin_i and draw(st.booleans()):
+        i = draw(st.sampled_from(twin_i))
+        other = draw(st.sampled_from(sorted({ops[i]['key'].lower(), ops[i]['key'].upper(), ops[i]['key'].swapcase()} - {ops[i]['key']})))
+        if other not in keys_in_use:
+            keyconsts = dict(keyconsts)
+            keyconsts[other] = draw(st.integers(0, 3))
+            pre_ops = [dict(o) for o in ops]
+            pre_ops[i] = {'k': 'expr', 'e': ['lab', other]}
     return {'isa': cfg, 'mn': mn, 'ops': ops, 'address': address, 'consts': consts, 'keyconsts': keyconsts,
             'perturb': perturb, 'variant_intended': vi, 'pre_ops': pre_ops, 'pre_address': glo + 8}
 
